@@ -43,6 +43,10 @@ def tier_primers(t, others):
         ("union", lambda: t.union(others[0])),
         ("shift", lambda: t.editTimestamps(0.5, "silence")),
         ("erase", lambda: t.eraseRegion(0.5, 1.0, "truncate", True)),
+        ("erase-late", lambda: t.eraseRegion(2.25, 2.75, "truncate", False)),
+        ("space", lambda: t.insertSpace(1.0, 0.5, "split")),
+        ("space-late", lambda: t.insertSpace(2.5, 1.0, "stretch")),
+        ("append", lambda: t.appendTier(others[0])),
         ("values", lambda: t.getValuesInIntervals(data) if isI else t.getValuesAtPoints(data, True)),
     ]
     if isI:
@@ -94,6 +98,8 @@ def observe_tier(t, others, reverse=False):
     ob("as-append-argument", lambda: others[0].appendTier(t))
     ob("shift", lambda: t.editTimestamps(0.25, "silence"))
     ob("space", lambda: t.insertSpace(1.0, 0.5, "split"))
+    ob("space-late", lambda: t.insertSpace(2.5, 1.0, "stretch"))
+    ob("space-error", lambda: t.insertSpace(3.25, 0.5, "error"))
     ob("erase", lambda: t.eraseRegion(0.5, 1.5, "truncate", True))
     ob("new", lambda: t.new())
     if isI:
@@ -184,3 +190,19 @@ def tier_history_cases(seeds, others_states, vals, with_second_primer=False):
                         if p2 != p1:
                             continue  # the same query before and after the mutation (stale memo pattern)
                         yield (state, p1, m, p2)
+
+
+def history_part(rule_suffix=""):
+    """the shared battery with the reduced seed set, as a ready-made part (the full seed set runs in C13)"""
+    from mc.engine import InputPart
+    from mc.props import tierops
+    hseeds = [("I", "t", 0.0, 4.0, ((0.0, 1.0, "a"), (1.0, 3.0, "b"))), ("I", "t", 0.0, 4.0, ((1.0, 2.0, "a"),)),
+              ("P", "t", 0.0, 4.0, ((1.0, "x"), (3.0, "y")))]
+    hothers = {"I": tierops.OTHERS_I, "P": tierops.OTHERS_P}
+    hvals = (0.0, 0.5, 1.0, 2.0, 3.0, 4.5)
+    return InputPart(
+        "history-independence", lambda: tier_history_cases(hseeds, hothers, hvals),
+        lambda c: check_tier_history(c, hothers, hvals),
+        rule="every (query/copy operation, in-place mutation) sequence on ONE live tier (3 seed tiers of <=2 entries and three 3-entry seeds): "
+             "afterwards the live tier and a fresh tier with the same fields agree under ~30 observations as receiver and as argument, in both "
+             "observation orders" + rule_suffix, bounds={}, chunk=16)
